@@ -206,12 +206,22 @@ def _operators():
     # stores at constant indexes over a constant array (a lookup table / memory image): printed as a store chain over
     # ((as const ...) d) and read back; the reader must not re-copy the cells read so far at every store
     O["store-const-table"] = ["arr", lambda L, f, k: L.m.Store(f, L.m.Int(k), L.leaf("int", k)), None]
+    # many constant-index reads of one big array literal (a lookup table with as many cells as the chain is deep)
+    # (Iff above the reads: And / Or would be flattened level by level, which is a cost of its own)
+    O["select-table"] = ["bool", lambda L, f, k: L.m.Iff(f, L.m.Equals(L.m.Select(L.table, L.m.Int(k)), L.leaf("int", k))), None]
     return O
 
 
 OPERATORS = _operators()
 # own initial term of a family (default: the first leaf of the sort)
+def _init_table(L):
+    m = L.m
+    L.table = m.Array(L.types["int"], m.Int(0), dict((m.Int(i), m.Int(i + 1)) for i in range(L.n)))
+    return L.leaf("bool", 0)
+
+
 INIT = {
+    "select-table": _init_table,
     "store-const-table": lambda L: L.m.Array(L.types["int"], L.m.Int(0)),
 }
 # own Boolean closure of a family (default: Leaves.close)
@@ -221,6 +231,10 @@ CLOSE = {
     "store-const": lambda L, f, n: L.m.Equals(L.m.Select(f, L.m.Int(n + 7)), L.leaf("int", 1)),
     "store-const-samevalue": lambda L, f, n: L.m.Equals(L.m.Select(f, L.m.Int(n + 7)), L.m.Int(7)),
 }
+# operations not run on a family: a set-valued answer that grows with the family (one distinct atom per level) is
+# copied at every level - a cost of the answer's size, not of repeated visits (the other families cycle three leaves
+# so that such sets stay bounded)
+OPS_SKIP = {"select-table": ("atoms",)}
 QUICK_SKIP = ("plus-real", "minus-real-l", "minus-real-r", "times-real", "div-real-l", "div-real-r")   # thorough only
 
 
@@ -318,6 +332,7 @@ def build(opname, family, n, calls_limit=None):
     env = Environment()
     push_env(env)
     L = Leaves(env)
+    L.n = n
     sort, chain, dia = OPERATORS[opname]
     step = chain if family == "chain" else dia
     b = Built()
@@ -542,6 +557,9 @@ def case_ops(opname, family, n, ops, res, part, profile, deep):
         # ---- operations
         dirty = False
         for op in ops:
+            if op in OPS_SKIP.get(opname, ()):
+                res.outcome("%s:skipped-for-family" % op)
+                continue
             if op.startswith("reparse") and not getattr(b, "text", None):
                 res.outcome("reparse:skipped-no-text")
                 continue
@@ -602,7 +620,7 @@ def case_ops(opname, family, n, ops, res, part, profile, deep):
                     bad("harness", op, "re-parsed formula has only %d nodes" % b.parsed_nodes)
         # ---- informational only (tree printing is not in the statement's list of operations):
         #      the TreeWalker-based printers on chains, where tree size = DAG size
-        if family == "chain" and ops and not dirty:
+        if family == "chain" and ops and not dirty and opname != "select-table":    # (the table is shared by all reads)
             for nm, fn in (("info-hr-serialize", lambda: len(b.F.serialize())),
                            ("info-smt-treeprint", lambda: len(_to_smtlib(b.F)))):
                 cnt, exc, tb = measure(fn, N, False)
